@@ -529,3 +529,228 @@ Qed.
     differ in their headers only. *)
 Example headers_premises_satisfiable : Forall2 same_but_headers spoof_fixed spoof_rotating.
 Proof. repeat constructor. Qed.
+
+(** * Round 4: the block period at instant resolution
+
+    Instants are nanoseconds and the blocked test of handleLogin is made on
+    the duration itself ([blk_code], [login_blk blk_code] is [login]).  The
+    theorems below say where, to the nanosecond, the block period begins and
+    ends; the refutation shows the test made on whole seconds. *)
+
+Lemma login_blk_code c e s : login_blk blk_code c e s = login c e s.
+Proof. reflexivity. Qed.
+
+Lemma run_logins_blk_code c h : forall s, run_logins_blk blk_code c s h = run_logins c s h.
+Proof.
+  induction h as [|e h IH]; intros s; [reflexivity|].
+  cbn [run_logins_blk run_logins]. rewrite login_blk_code.
+  destruct (login c e s) as [s1 o]. rewrite IH. reflexivity.
+Qed.
+
+(** State level: an attempt is rejected exactly when the record of its
+    address is at or above the limit and its deadline lies strictly after the
+    instant [check] reads; the time left is the exact difference. *)
+Theorem blocked_iff c e s :
+  evaluated (snd (login c e s)) = false <->
+  exists r, s !! a_addr e = Some r /\ (rl_max c <= fa_num r)%N /\ a_now e < fa_until r.
+Proof.
+  rewrite login_out_rec. unfold rec_step, keep.
+  destruct (s !! a_addr e) as [r|].
+  - destruct (decide (a_now e <= fa_until r)) as [Hle|Hgt].
+    + destruct (fa_num r <? rl_max c)%N eqn:E.
+      * apply N.ltb_lt in E. cbn. split.
+        -- destruct (a_ok e); discriminate.
+        -- intros (r' & [= <-] & H1 & _). lia.
+      * apply N.ltb_ge in E.
+        destruct (Z.ltb_spec 0 (fa_until r - a_now e)) as [H|H]; cbn.
+        -- split; [intros _; exists r; repeat split; auto; lia|reflexivity].
+        -- split; [destruct (a_ok e); discriminate|]. intros (r' & [= <-] & _ & H2). lia.
+    + cbn. split; [destruct (a_ok e); discriminate|]. intros (r' & [= <-] & _ & H2). lia.
+  - cbn. split; [destruct (a_ok e); discriminate|]. intros (r' & H & _). discriminate.
+Qed.
+
+Theorem blocked_left c e s r :
+  s !! a_addr e = Some r -> (rl_max c <= fa_num r)%N -> a_now e < fa_until r ->
+  login c e s = (rl_cleanup (a_now e) s, L429 (fa_until r - a_now e)).
+Proof.
+  intros Hs Hr Ht.
+  assert (K : rl_cleanup (a_now e) s !! a_addr e = Some r).
+  { rewrite cleanup_lookup, Hs. cbn. rewrite decide_True by lia. reflexivity. }
+  unfold login, login_with, pick, rl_check, rl_check_locked. rewrite K.
+  replace (fa_num r <? rl_max c)%N with false by (symmetry; apply N.ltb_ge; lia).
+  replace (0 <? fa_until r - a_now e) with true by (symmetry; apply Z.ltb_lt; lia).
+  reflexivity.
+Qed.
+
+Section BlockExact.
+Context (c : rl_conf) (a : bytes).
+Hypothesis Hmax : (1 <= rl_max c)%N.
+
+(** The burst brings the record to the limit, with the deadline one block
+    after its last failure was counted. *)
+Lemma burst_reaches_limit s0 t0 f1 F' fk :
+  wf_from t0 (f1 :: F') ->
+  burst a (N.to_nat (rl_max c)) (f1 :: F') fk ->
+  a_addr f1 = a ->
+  ~ live (a_now f1) s0 a ->
+  Forall (fun e => a_addr e = a -> a_now e <= a_now2 f1 + rl_ttl c) F' ->
+  fst (run_logins c s0 (f1 :: F')) !! a =
+    Some {| fa_until := a_now2 fk + rl_block c; fa_num := rl_max c |}.
+Proof.
+  intros Hwf Hb Ha1 Hopen Hdl.
+  inversion Hb as [f Hf Hok Hn | f l lst n Hf Hok Hb' Hn | e l lst n He Hb' ]; subst.
+  - rewrite run_logins_cons. cbn [fst run_logins].
+    destruct (opening_step c (a_addr fk) s0 fk) as [_ ->]; auto.
+    replace (rl_max c) with 1%N by lia. reflexivity.
+  - rewrite run_logins_cons. cbn [fst].
+    destruct (opening_step c (a_addr f1) s0 f1) as [_ Hs1]; auto.
+    assert (Hlt : (rl_max c <=? 1)%N = false) by
+      (apply N.leb_gt; destruct (burst_last _ _ _ _ Hb'); lia).
+    rewrite Hlt in Hs1.
+    cbn in Hwf. destruct Hwf as (_ & _ & HwF).
+    destruct (burst_counts c (a_addr f1) Hmax _ _ _ Hb' (fst (login c f1 s0)) (a_now2 f1) 1%N (a_now2 f1 + rl_ttl c))
+      as [Hc _]; auto. lia.
+  - congruence.
+Qed.
+
+(** Attempts of other addresses leave the record of [a] as it is or, once its
+    deadline has passed, drop it. *)
+Lemma others_keep l : forall s,
+  Forall (fun e => a_addr e <> a) l ->
+  fst (run_logins c s l) !! a = s !! a \/ fst (run_logins c s l) !! a = None.
+Proof.
+  induction l as [|e l IH]; intros s Hl; [left; reflexivity|].
+  apply Forall_cons_1 in Hl as [He Hl]. rewrite run_logins_cons. cbn [fst].
+  assert (K : fst (login c e s) !! a = s !! a \/ fst (login c e s) !! a = None).
+  { rewrite login_lookup, decide_False by auto. unfold keep.
+    destruct (s !! a) as [r|]; auto. destruct (decide (a_now e <= fa_until r)); auto. }
+  destruct (IH (fst (login c e s)) Hl) as [E|E]; rewrite E; tauto.
+Qed.
+
+(** The block period, exactly.  After a burst as in [block_after_limit] and
+    any attempts of OTHER addresses, an attempt of [a] is rejected if and only
+    if the instant its check reads lies strictly before [a_now2 fk + block]:
+    one nanosecond before the end it is still rejected (whatever the
+    password), at the end itself and after it the password is evaluated. *)
+Theorem block_period_exact s0 t0 f1 F' fk G x :
+  wf_from t0 ((f1 :: F') ++ G ++ [x]) ->
+  burst a (N.to_nat (rl_max c)) (f1 :: F') fk ->
+  a_addr f1 = a ->
+  ~ live (a_now f1) s0 a ->
+  Forall (fun e => a_addr e = a -> a_now e <= a_now2 f1 + rl_ttl c) F' ->
+  Forall (fun e => a_addr e <> a) G ->
+  a_addr x = a ->
+  let s := fst (run_logins c s0 ((f1 :: F') ++ G)) in
+  evaluated (snd (login c x s)) = false <-> a_now x < a_now2 fk + rl_block c.
+Proof.
+  intros Hwf Hb Ha1 Hopen Hdl HG Hax s. split.
+  - intros Hrej. apply blocked_iff in Hrej as (r & Hs & _ & Hlt).
+    assert (HF := burst_reaches_limit s0 t0 f1 F' fk (wf_from_app_l _ _ _ Hwf) Hb Ha1 Hopen Hdl).
+    unfold s in Hs. rewrite run_logins_app, Hax in Hs.
+    destruct (others_keep G (fst (run_logins c s0 (f1 :: F'))) HG) as [E|E]; rewrite E in Hs; [|discriminate].
+    rewrite HF in Hs. injection Hs as <-. exact Hlt.
+  - intros Hlt.
+    destruct (block_after_limit c a Hmax s0 t0 f1 F' fk G x Hwf Hb Ha1 Hopen Hdl Hax Hlt) as (lft & _ & E & _).
+    fold s in E. rewrite E. reflexivity.
+Qed.
+
+End BlockExact.
+
+(** The test made on the truncated whole seconds differs from the code's
+    exactly on the last fractional second. *)
+Theorem trunc_differs_iff lft : blk_trunc lft <> blk_code lft <-> 0 < lft < second_ns.
+Proof.
+  unfold blk_trunc, blk_code, retry_after_secs, second_ns.
+  destruct (Z.ltb_spec 0 lft) as [H|H].
+  - destruct (Z.ltb_spec 0 (lft ÷ 1000000000)) as [Q|Q].
+    + split; [congruence|]. intros [_ L]. rewrite Z.quot_small in Q by lia. lia.
+    + split; [intros _|discriminate]. split; [lia|].
+      destruct (Z.lt_ge_cases lft 1000000000) as [L|L]; [exact L|exfalso].
+      assert (1 <= lft ÷ 1000000000) by (apply Z.quot_le_lower_bound; lia). lia.
+  - assert (Q : lft ÷ 1000000000 <= 0) by (apply Z.quot_le_upper_bound; lia).
+    replace (0 <? lft ÷ 1000000000) with false by (symmetry; apply Z.ltb_ge; exact Q).
+    split; [congruence|lia].
+Qed.
+
+(** The Retry-After value sent with a 429: whole seconds, rounded down; zero
+    exactly during the last fractional second of the block. *)
+Theorem retry_after_value lft : 0 < lft ->
+  0 <= retry_after_secs lft /\
+  retry_after_secs lft * second_ns <= lft < (retry_after_secs lft + 1) * second_ns /\
+  (retry_after_secs lft = 0 <-> lft < second_ns).
+Proof.
+  intros H. unfold retry_after_secs, second_ns.
+  rewrite Z.quot_div_nonneg by lia.
+  pose proof (Z.div_mod lft 1000000000 ltac:(lia)) as D.
+  pose proof (Z.mod_pos_bound lft 1000000000 ltac:(lia)) as M.
+  pose proof (Z.div_pos lft 1000000000 ltac:(lia) ltac:(lia)) as P.
+  repeat split; lia.
+Qed.
+
+(** Limit reached at 2 s with a block of 900 s: the block ends at 902 s. *)
+Definition edge_att (t : Z) (ok : bool) : att :=
+  {| a_now := t; a_now2 := t; a_addr := sliding_addr; a_hdr := None; a_trusted := false; a_ok := ok |}.
+Definition edge_burst : list att := [edge_att (sec 0) false; edge_att (sec 1) false; edge_att (sec 2) false].
+Definition edge_end : Z := sec 902.
+Definition ms (n : Z) : Z := n * 1000000.
+
+(** The code at the edges (correct password every time): still rejected one
+    nanosecond, 600 ms, 999 ms and one second before the end (with
+    [Retry-After: 0] inside the last second); evaluated at the end and one
+    nanosecond after it.  With the test on whole seconds the correct password
+    logs in 600 ms before the end (a wrong one is one more guess per block
+    period), and a block shorter than a second never holds. *)
+Example trunc_seconds_refuted :
+  let x off ok := edge_att (edge_end + off) ok in
+  let last l := nth 3 l L403 in
+  wf_from 0 (edge_burst ++ [] ++ [x (- ms 600) true]) /\
+  burst sliding_addr (N.to_nat (rl_max sliding_conf)) edge_burst (edge_att (sec 2) false) /\
+  ~ live (sec 0) ∅ sliding_addr /\
+  Forall (fun e => a_addr e = sliding_addr -> a_now e <= sec 0 + rl_ttl sliding_conf) (tl edge_burst) /\
+  a_now (x (- ms 600) true) < sec 2 + rl_block sliding_conf /\
+  map (fun off => last (snd (run_logins sliding_conf ∅ (edge_burst ++ [x off true]))))
+      [- sec 1; - ms 999; - ms 600; -1; 0; 1] =
+    [L429 (sec 1); L429 (ms 999); L429 (ms 600); L429 1; L200; L200] /\
+  map (fun off => retry_after (last (snd (run_logins sliding_conf ∅ (edge_burst ++ [x off true])))))
+      [- sec 1 - 1; - sec 1; - ms 999; - ms 600; -1; 0] =
+    [Some 1; Some 1; Some 0; Some 0; Some 0; None] /\
+  map (fun off => last (snd (run_logins_blk blk_trunc sliding_conf ∅ (edge_burst ++ [x off true]))))
+      [- sec 1; - ms 999; - ms 600; -1; 0; 1] =
+    [L429 (sec 1); L200; L200; L200; L200; L200] /\
+  last (snd (run_logins_blk blk_trunc sliding_conf ∅ (edge_burst ++ [x (- ms 600) false]))) = L403 /\
+  snd (run_logins_blk blk_trunc {| rl_ttl := sec 60; rl_block := ms 999; rl_max := 1 |} ∅
+         [edge_att 0 false; edge_att 1 false; edge_att 2 true]) = [L403; L403; L200] /\
+  snd (run_logins {| rl_ttl := sec 60; rl_block := ms 999; rl_max := 1 |} ∅
+         [edge_att 0 false; edge_att 1 false; edge_att 2 true]) = [L403; L429 (ms 999 - 1); L429 (ms 999 - 2)].
+Proof.
+  cbn zeta. split; [cbn; unfold edge_end, ms, sec; lia|]. split.
+  { cbn. apply burst_cons_a; auto. apply burst_cons_a; auto. apply burst_one; auto. }
+  split. { intros (r & Hr & _). rewrite lookup_empty in Hr. discriminate. }
+  split. { repeat constructor; cbn; unfold sec; intros; lia. }
+  split; [cbn; unfold edge_end, ms, sec; lia|].
+  vm_compute. repeat split.
+Qed.
+
+(** Non-vacuity of [block_period_exact]: the same burst, an attempt of another
+    address in between, the attempt one nanosecond before the end and the one
+    at the end. *)
+Example block_exact_premises_satisfiable :
+  let o := {| a_now := sec 500; a_now2 := sec 500; a_addr := [120]%N; a_hdr := None; a_trusted := false; a_ok := false |} in
+  let x off := edge_att (edge_end + off) true in
+  wf_from 0 (edge_burst ++ [o] ++ [x (-1)]) /\ wf_from 0 (edge_burst ++ [o] ++ [x 0]) /\
+  burst sliding_addr (N.to_nat (rl_max sliding_conf)) edge_burst (edge_att (sec 2) false) /\
+  ~ live (sec 0) ∅ sliding_addr /\
+  Forall (fun e => a_addr e = sliding_addr -> a_now e <= sec 0 + rl_ttl sliding_conf) (tl edge_burst) /\
+  Forall (fun e => a_addr e <> sliding_addr) [o] /\
+  a_now (x (-1)) < sec 2 + rl_block sliding_conf /\ ~ a_now (x 0) < sec 2 + rl_block sliding_conf /\
+  snd (run_logins sliding_conf ∅ (edge_burst ++ [o] ++ [x (-1)])) = [L403; L403; L403; L403; L429 1] /\
+  snd (run_logins sliding_conf ∅ (edge_burst ++ [o] ++ [x 0])) = [L403; L403; L403; L403; L200].
+Proof.
+  cbn zeta. split; [cbn; unfold edge_end, sec; lia|]. split; [cbn; unfold edge_end, sec; lia|]. split.
+  { cbn. apply burst_cons_a; auto. apply burst_cons_a; auto. apply burst_one; auto. }
+  split. { intros (r & Hr & _). rewrite lookup_empty in Hr. discriminate. }
+  split. { repeat constructor; cbn; unfold sec; intros; lia. }
+  split. { repeat constructor. discriminate. }
+  split; [cbn; unfold edge_end, sec; lia|]. split; [cbn; unfold edge_end, sec; lia|].
+  vm_compute. repeat split.
+Qed.
